@@ -64,6 +64,11 @@ pub fn main(args: &[String]) {
         mods.push((t.into(), false, opa(vec![])));
         extra.push(Some(("static-lifetime-argument".into(), "    #[diplomat::opaque]\n    pub struct XtHolder<'x>(&'x u8);\n    #[diplomat::opaque]\n    pub struct XtSrc;\n    impl XtSrc {\n        pub fn hold<'a>(&'a self) -> Box<XtHolder<'static>> { unimplemented!() }\n    }\n".into())));
     }
+    // an enum without variants passes lowering in every backend (F40: kotlin indexes its first variant)
+    for t in BACKENDS {
+        mods.push((t.to_string(), false, opa(vec![])));
+        extra.push(Some(("empty-enum".into(), "    pub enum XtNever {}\n    impl XtNever {\n        pub fn describe(self) -> u8 { unimplemented!() }\n    }\n".into())));
+    }
     for i in 0..n {
         let target = BACKENDS[i % BACKENDS.len()];
         let unsafe_refs = i % 5 == 0;
